@@ -308,10 +308,14 @@ type cosimCounters struct {
 	// the one fault kind of the co-simulation: the game state is re-drawn after every command
 	redraws       int64
 	lateDecisions int64
+	cliChecked    int64
 }
 
 // transp is the worker's transparency-sample logger (nil = off).
 var transp *transpLogger
+
+// forceCLI makes every evaluation go through the front end (replay / minimisation of a cli-differs failure).
+var forceCLI bool
 
 func compileFor(p *cosimProgram, optimize, lm bool) (comp.Options, comp.Result) {
 	o := cosimOptions(p.f, optimize, lm)
@@ -352,6 +356,19 @@ func cosimEval(prop string, p *cosimProgram, plan *envPlan, cc *cosimCounters, o
 	if cc != nil && cc.digest != nil {
 		cc.digest.Add(resA.Out)
 		cc.digest.Add(resB.Out)
+	}
+	// a sample of the programs also goes through the command-line front end
+	if cli != nil && (forceCLI || rng.HashStr(p.src)%40 == 0) {
+		o, res := optA, resA
+		if rng.HashStr(p.src)%80 == 0 {
+			o, res = optB, resB
+		}
+		if d := cliCheck(p.src, &o, &res, nil); d != "" {
+			return &cosimFail{oracle: "cli-differs", detail: d, opt: o, out: res.Out}
+		}
+		if cc != nil {
+			cc.cliChecked++
+		}
 	}
 	imA := vm.Load(resA.Out)
 	imB := vm.Load(resB.Out)
@@ -549,6 +566,8 @@ func CosimWorker(pm *Params) (*Stats, []*Failure) {
 	total := &Digest{}
 	transp = newTranspLogger(pm.TranspOut)
 	defer func() { transp.close(); transp = nil }()
+	cli = newCLI(pm.DistinctOut)
+	defer func() { cli.close(); cli = nil }()
 	for i := pm.From; i < pm.Count; i += pm.Stride {
 		runSeed := rng.RunSeed(pm.VerifSeed, prop, i)
 		gr := rng.New(rng.Sub(runSeed, "gen"))
@@ -625,6 +644,7 @@ func CosimWorker(pm *Params) (*Stats, []*Failure) {
 		}
 	}
 	st.Evaluations = cc.evals
+	st.CLIChecked = cc.cliChecked
 	if cc.redraws > 0 {
 		fc := st.Fault("game_state_redrawn_after_command")
 		fc.Configured, fc.Fired, fc.Effective = cc.redraws, cc.redraws, cc.lateDecisions
@@ -667,6 +687,10 @@ func cosimReport(pm *Params, run, runSeed uint64, p *cosimProgram, plan *envPlan
 	best := p
 	bestFail := fail
 	evals := 0
+	if oracle == "cli-differs" {
+		forceCLI = true
+		defer func() { forceCLI = false }()
+	}
 	try := func(f *model.File, st int) *cosimFail {
 		q := buildProgram(f, st, layoutSeed, p.lm)
 		ff := cosimEval(prop, q, narrow, nil, "")
@@ -748,6 +772,15 @@ func CosimReplay(r *Replay) (string, string) {
 	}
 	if r.Model == nil {
 		return "", "replay has no model"
+	}
+	if r.Oracle == "cli-differs" {
+		cli = newCLI("")
+		defer func() { cli.close(); cli = nil }()
+		forceCLI = true
+		defer func() { forceCLI = false }()
+		if cli == nil {
+			return "", "the command-line front end is not available (VERIF_CLI)"
+		}
 	}
 	p := &cosimProgram{f: r.Model, src: r.Source, lm: r.Options != nil && r.Options.LineMarkers, tops: topsOf(r.Model), ents: r.Model.Entries()}
 	plan := &envPlan{}
